@@ -26,7 +26,11 @@
      "DupDependsOnOrder"  the outcome of a conflicting input (the same setting
         defined twice through overlapping dotted keys, or an explicit nil
         meeting a value below a shared subtree) depends on visiting order:
-        duplicate error, silently merged, or nil wins.                        *)
+        duplicate error, silently merged, or nil wins.  The visiting order is
+        a function of the input - the field order of a struct, the order of the
+        key strings of a map (since the repair of KF-50; before it the runtime's
+        map order) - so the outcome is deterministic (C09) but not always the
+        duplicate error C05 demands.                                          *)
 EXTENDS UcfgMerge
 
 GNil         == [g |-> "nil"]
@@ -206,4 +210,10 @@ Normalize(D, opts, gv) == IF "DupDependsOnOrder" \in D THEN NormSeq(opts, gv) EL
 \* all visiting orders of the top-level entries
 PermsOf(es) == {[i \in 1..Len(es) |-> es[p[i]]] : p \in Permutations(1..Len(es))}
 OutcomesOverOrders(opts, gv) == IF gv.g # "m" THEN {NormSeq(opts, gv)} ELSE {NormSeq(opts, GMap(pe)) : pe \in PermsOf(gv.es)}
+\* the same, each outcome with the visiting order that produces it (perm[i] = position in gv.es of the entry visited i-th).
+\* A struct is visited in field order and a map in the order of its key strings (TLC cannot compare strings: the replay
+\* picks the permutation that sorts the keys as they are spelled with the separator in use).
+OrdersOf(opts, gv) ==
+  IF gv.g # "m" THEN {}
+  ELSE {[perm |-> [i \in 1..Len(gv.es) |-> p[i]], out |-> NormSeq(opts, GMap([i \in 1..Len(gv.es) |-> gv.es[p[i]]]))] : p \in Permutations(1..Len(gv.es))}
 ==========================================================================
